@@ -613,7 +613,7 @@ func firstLines(s string, n int) string {
 
 func init() {
 	register("C11", func(ctx *Ctx) {
-		n := ctx.N(2000, 100000)
+		n := ctx.N(12000, 200000)
 		for i := 0; i < n; i++ {
 			c11RunCase(ctx, i, i%3 != 0)
 		}
